@@ -97,6 +97,8 @@ def gen_program(rng, ndex=None, shared_strings=True):
     for j, ci in enumerate(order):
         parts[j % k if j < k else rng.randrange(k)].append(classes[ci])
     prog = {"dex": [p for p in parts if p]}
+    if len(prog["dex"]) > 1 and rng.random() < 0.4:
+        prog["ask_early"] = True
     if rng.random() < 0.3:                    # the string data of the files written in another order than the string ids
         prog["sdo"] = rng.choice(("reverse", rng.randrange(1, 10**6)))
     return prog
@@ -234,8 +236,13 @@ def observe(prog, order=None):
     if order is not None:
         raws = [raws[i] for i in order]
     dx = Analysis()
-    for r in raws:
+    for j, r in enumerate(raws):
         dx.add(DEX(r))
+        if prog.get("ask_early") and j == 0:            # a look at the analysis while files are still being added
+            dx.get_call_graph()
+            sum(1 for _ in dx.get_methods())
+            sum(1 for _ in dx.get_strings())
+            sum(1 for _ in dx.get_fields())
     dx.create_xref()
 
     def mk(meth):             # MethodAnalysis -> (class id, name id, desc id)
@@ -678,6 +685,16 @@ def gen_c16(rng, tier, ctx):
     cases.append({"dex": [[{"name": "Lp/A;", "fields": [("f0", "I")], "methods": [{"name": "m0", "ret": "V", "params": (), "code": [
         ("invoke", 0x72, "Lp/B;", "m1", "V", ()), ("field", 0x60, "Lp/B;", "g", "S"), ("cclass", "Lp/B;")]}]}],
         [{"name": "Lp/B;", "access": 0x601, "fields": [("g", "S")], "methods": [{"name": "m1", "ret": "V", "params": (), "code": [], "abstract": True}]}]]})
+    # template classes: the same shape, names of one length, each alone in its DEX file - method and field indices, flags and code
+    # offsets coincide between the files; only what the code refers to differs
+    tpl = []
+    for j, L in enumerate("ABC"):
+        tpl.append({"name": "Lt/%s;" % L, "fields": [("f0", "I")], "access": 1, "methods": [
+            {"name": "run", "ret": "V", "params": (), "code": [("str", "s%d" % (j % 2), False), ("invoke", 0x6E, "Lt/%s;" % "BCA"[j], "run", "V", ()),
+                                                               ("field", 0x52, "Lt/%s;" % L, "f0", "I"), ("new", "Lext/X;")]},
+            {"name": "m0", "ret": "V", "params": (), "code": [("cclass", "Lt/%s;" % "CAB"[j]), ("invoke", 0x6E, "Lt/%s;" % L, "run", "V", ())]}]})
+    cases.append({"dex": [[tpl[0]], [tpl[1]], [tpl[2]]]})
+    cases.append({"dex": [[tpl[0]], [tpl[1], tpl[2]]]})
     for _ in range(60 if tier == "thorough" else 10):
         p = gen_program(rng)
         classes = [c for part in p["dex"] for c in part]
